@@ -416,6 +416,7 @@ def replay(ctx, obj):
             ctx.sample({'replayed': base, 'params': r})
             if r != m_params(o[2]):
                 ctx.violation('params-not-reference', dict(base, fn='req.params', impl=r, reference=m_params(o[2])))
+                continue
             for name, (mg, sg) in zip(names, o[3]):
                 check_getters(ctx, falcon, req, base, name, required, mn, mx, bat, mg, sg)
     else:
